@@ -595,13 +595,9 @@ pub fn compare(exp: &Scene, got: &Scene) -> Vec<Diff> {
     if exp.clouds.len() != got.clouds.len() {
         d.push(("C01", "clouds/count".into(), format!("{} point clouds finalized, reader lists {}", exp.clouds.len(), got.clouds.len())));
     }
-    // two prefixes bound to one URL denote the same XML namespace: a record name is compared as
-    // (namespace URL, local name), the prefix itself is not significant in XML
-    let url_of = |ns: &str| exp.exts.iter().find(|e| e.0 == ns).map(|e| e.1.clone());
-    let name_eq = |a: &RName, b: &RName| match (a, b) {
-        (RName::Ext(na, la), RName::Ext(nb, lb)) => la == lb && (na == nb || (url_of(na).is_some() && url_of(na) == url_of(nb))),
-        _ => a == b,
-    };
+    // (since the fix "extension records changed their namespace when two extensions shared one URL"
+    // no two registered prefixes share a URL, so names are compared literally)
+    let name_eq = |a: &RName, b: &RName| a == b;
     for (i, (e, g)) in exp.clouds.iter().zip(got.clouds.iter()).enumerate() {
         if e.proto.len() != g.proto.len() || e.proto.iter().zip(g.proto.iter()).any(|(a, b)| !name_eq(&a.name, &b.name) || !dtype_eq(&a.dt, &b.dt)) {
             let which = e.proto.iter().zip(g.proto.iter()).find(|(a, b)| !name_eq(&a.name, &b.name) || !dtype_eq(&a.dt, &b.dt));
